@@ -13,6 +13,27 @@ import ast
 import copy
 
 
+def _walk_same_loop(node):
+    todo = [node]
+    while todo:
+        n = todo.pop()
+        yield n
+        if isinstance(n, (ast.For, ast.While, ast.AsyncFor, ast.FunctionDef, ast.AsyncFunctionDef, ast.ClassDef, ast.Lambda)) and n is not node:
+            continue
+        todo.extend(ast.iter_child_nodes(n))
+
+
+def _pure_iterable(e):
+    for x in ast.walk(e):
+        if isinstance(x, ast.Call):
+            if not (isinstance(x.func, ast.Name) and x.func.id in ('reversed', 'list', 'tuple', 'sorted', 'range', 'enumerate', 'len')):
+                return False
+        elif isinstance(x, (ast.Lambda, ast.NamedExpr, ast.Await, ast.Yield, ast.YieldFrom, ast.GeneratorExp, ast.ListComp, ast.SetComp,
+                            ast.DictComp)):
+            return False
+    return True
+
+
 def _simple(e):
     return isinstance(e, ast.Name) or (isinstance(e, ast.Attribute) and _simple(e.value))
 
@@ -147,6 +168,29 @@ class _Desugar(ast.NodeTransformer):
             ast.fix_missing_locations(new)
             self._note('contextlib.suppress')
             return new
+        return node
+
+    # ---- for a, b, c in product(A, B, C): ...  ->  for a in A: for b in B: for c in C: ...
+    def visit_For(self, node):
+        self.generic_visit(node)
+        it = node.iter
+        if (isinstance(it, ast.Call) and ast.unparse(it.func).split('.')[-1] == 'product' and not it.keywords and len(it.args) >= 2
+                and isinstance(node.target, (ast.Tuple, ast.List)) and len(node.target.elts) == len(it.args) and not node.orelse
+                and all(isinstance(e, ast.Name) for e in node.target.elts)
+                and not any(isinstance(x, (ast.Break, ast.Continue)) for b in node.body for x in _walk_same_loop(b))
+                and all(_pure_iterable(a) for a in it.args)):
+            # product() walks the last iterable fastest: the nesting order of the loops; nothing in the loop can leave only the innermost
+            # level (no break / continue), and the iterables are plain reads, so evaluating the inner ones again changes nothing
+            names = {e.id for e in node.target.elts}
+            if not any(isinstance(x, ast.Name) and x.id in names for a in it.args for x in ast.walk(a)):
+                body = node.body
+                for tgt, seq in reversed(list(zip(node.target.elts, it.args))):
+                    loop = ast.For(target=tgt, iter=seq, body=body, orelse=[], type_comment=None)
+                    ast.copy_location(loop, node)
+                    body = [loop]
+                ast.fix_missing_locations(body[0])
+                self._note('product() as nested loops')
+                return body[0]
         return node
 
     # ---- L.extend(f(x) for x in xs)  ->  for x in xs: L.append(f(x))
